@@ -786,7 +786,8 @@ Definition nested (o : orc) (q : quirks) (cat : string) (raws : list jvalue) (or
   map (fun '(raw, (ok, n, k)) =>
          let v := validate_leaf o q cat raw in
          if in_list (raw_kind raw) cv_leaf then (v_accept v, sget "name" (v_image v), raw_kind raw, v)
-         else (ok, n, k, v))
+         else (* unmodelled Validate() methods: oracle verdict, plus the generic null-entry repair *)
+              (ok && (q_null_entry q || negb (has_null_entry (v_ty v) (v_image v))), n, k, v))
       (combine raws orcs).
 
 Definition nested_decl (x : bool * string * string * verdict) : bool * string * string :=
